@@ -505,6 +505,84 @@ func checkTree(c *h.Ctx, docText string, specs []anySpec, full bool) {
 				}
 			}
 		}
+		// the descent applied to each element of an array (scalars among them)
+		// is the descent of each element; and a step that fails on one node
+		// (silently) ends the walk there - the nodes after it are not visited
+		if arr, ok := doc.([]any); ok && len(arr) > 0 && listings != nil {
+			for si, spec := range specs {
+				if si%2 != 1 {
+					continue
+				}
+				for _, suf := range []string{"", ".a", ".*", "[*]"} {
+					if lax && suf != "" {
+						continue
+					}
+					ptxt := map[bool]string{true: "", false: "strict "}[lax] + "$[*]" + spec.text + suf
+					one := cachedPath(map[bool]string{true: "", false: "strict "}[lax] + "$" + spec.text + suf)
+					p := cachedPath(ptxt)
+					if p == nil || one == nil || hasMultiMemberObject(doc) {
+						continue
+					}
+					o := h.Call("query", p, h.Decode(docText, c15UseNum), h.Opts{})
+					var want []any
+					okAll := true
+					for _, el := range h.Decode(docText, c15UseNum).([]any) {
+						oe := h.Call("query", one, el, h.Opts{})
+						c.Eval(1)
+						if oe.Class != h.OK {
+							okAll = false
+							break
+						}
+						want = append(want, oe.Items...)
+					}
+					c.Eval(1)
+					if !okAll || o.Class == h.Panic {
+						continue
+					}
+					if o.Class != h.OK || h.CanonListTyped(o.Items) != h.CanonListTyped(want) {
+						c.Violate("anylevel.chain", h.F("mode", modeName(lax), "kind", "per-element"), fmt.Sprintf("Query(%s) on %s = %s; the same descent applied to each element gives %s", ptxt, docText, o.Summary(), h.CanonListTyped(want)), h.Case{Kind: "any", Path: ptxt, Doc: docText, UseNum: c15UseNum})
+					} else {
+						c.Held("anylevel.chain")
+					}
+				}
+			}
+		}
+		if lax && listings != nil && !hasMultiMemberObject(doc) {
+			for si, spec := range specs {
+				if si%3 != 2 {
+					continue
+				}
+				ptxt := "$" + spec.text + ".double()"
+				p, one := cachedPath(ptxt), cachedPath("$.double()")
+				if p == nil || one == nil {
+					continue
+				}
+				os := h.Call("query", p, h.Decode(docText, c15UseNum), h.Opts{Silent: true})
+				c.Eval(1)
+				if os.Class != h.OK {
+					continue
+				}
+				var want []any
+				for _, x := range selectLevels(doc, listings[0], spec.first, spec.last, spec.leaves) {
+					ox := h.Call("query", one, x, h.Opts{})
+					c.Eval(1)
+					if ox.Class != h.OK {
+						// the walk ends at the first node the step fails on (with
+						// what the step had produced from that node before failing)
+						if oxs := h.Call("query", one, x, h.Opts{Silent: true}); oxs.Class == h.OK {
+							want = append(want, oxs.Items...)
+						}
+						break
+					}
+					want = append(want, ox.Items...)
+				}
+				if h.CanonList(os.Items) != h.CanonList(want) {
+					c.Violate("anylevel", h.F("mode", "lax", "kind", "silent-stop"), fmt.Sprintf("silent Query(%s) on %s = %s; node by node, up to the first node .double() fails on: %s", ptxt, docText, os.Summary(), h.CanonList(want)), h.Case{Kind: "any", Path: ptxt, Doc: docText, UseNum: c15UseNum, Silent: true})
+				} else {
+					c.Held("anylevel")
+				}
+			}
+		}
 		// strict mode: a filter after .** sees the same relaxation - a member
 		// accessor inside its condition skips the nodes it does not apply to
 		// (the comparison is then false, not unknown: visible under ! and is unknown)
